@@ -17,6 +17,7 @@ OPNAME = {1: "bind", 2: "connect", 3: "send", 4: "recv", 5: "set_option", 6: "ge
           17: "unbind", 18: "raw-listen"}
 
 SIG_MAILBOX = "C16:delegated-command-never-answered"
+SIG_WINDOW = "C16:delegated-command-between-drain-and-mailbox-close"
 SIG_REQ = "C16:req-send-without-peer-never-woken"
 SIG_SPAWN = "C16:term-returns-before-spawned-actor-started"
 SIG_HANDSHAKE = "C16:session-in-handshake-ignores-stop"
@@ -278,7 +279,10 @@ def problems_of(c, o):
             when = {0: "issued before close()/term() started", 2: "issued while close()/term() ran", 1: "issued after close()/term() had returned"}[rel]
             sig = None
             if op in DELEGATED:
-                sig = SIG_MAILBOX
+                # since the drain fix: only a command that lands between the drain's last try_recv and the mailbox close
+                # (two adjacent statements, no await in between) can still be left unanswered; that cannot happen on a
+                # current-thread runtime, where the old defect replays deterministically (conc-*-1 cases)
+                sig = SIG_MAILBOX if c.get("threads", 2) == 1 else SIG_WINDOW
             elif op == 3 and c["types"][s] == "REQ":
                 sig = SIG_REQ
             elif op in (4, 15) and rel == 0 and peer_churned_before_close(c, o, s):
